@@ -12,3 +12,4 @@ pub mod scoping;
 pub mod luaexec;
 pub mod tyws;
 pub mod dump;
+pub mod tokcanon;
